@@ -1140,6 +1140,13 @@ package leveldb
 //@   props C07 C11 C08
 //@   safety off
 //@   ensures [C07,C08,C11:the-file-handle-is-spent-after-close-whatever-it-returned] w.w == nil
+// C07 / C08: dropping a table removes its file whatever closing the writer returned (the handle is spent either
+// way). A writer whose Write failed usually fails in Close too; returning before the removal left the partial table in
+// the directory for as long as the DB stayed open - nobody retries the drop, the retried flush takes a new number.
+//@ func (*tWriter).drop
+//@   props C07 C08
+//@   safety off
+//@   ensures [C07,C08:a-dropped-table-is-removed-whatever-closing-its-writer-returned] calls("storage.Storage.Remove") == old(calls("storage.Storage.Remove")) + 1
 
 // C04 / C06: the manifest record format, writer and reader side by side. Each field goes out as its tag followed by
 // its own values, in the order the reader takes them back: the journal number under the journal tag, the next file
